@@ -58,6 +58,11 @@ def f_shape():
     add("wide_parity", I("a", "b", "c", "d", "e", "f") + [("x", "xor", ["a", "b", "c", "d", "e", "f"], True), ("y", "xnor", ["a", "b", "c", "d", "e"], True), ("z", "xnor", ["x", "y", "a"], True)])
     add("internal_out", I("a", "b") + [("m", "and", ["a", "b"], True), ("o", "not", ["m"], True)])
     add("unused_input", I("a", "b", "u") + [("o", "or", ["a", "b"], True)])
+    # outputs that are inverters / buffers of a constant; an inverter chain below a two-operand gate (dominator chains)
+    add("const_inverted_out", I("a") + [("k0", "0", []), ("k1", "1", []), ("o1", "not", ["k0"], True), ("o2", "buf", ["k1"], True), ("o3", "not", ["k1"], True), ("o4", "and", ["a", "o1"], True), ("o5", "nor", ["o3", "a"], True)])
+    add("chain_below_head", I("u", "v", "w") + [("h", "or", ["u", "v"]), ("n1", "buf", ["h"]), ("p", "not", ["n1"]), ("q", "xor", ["w", "u"]), ("y", "and", ["p", "q"], True)])
+    add("chain3_below_head", I("u", "v", "w") + [("h", "nand", ["u", "v"]), ("n1", "not", ["h"]), ("n2", "buf", ["n1"]), ("n3", "not", ["n2"]), ("q", "or", ["w", "n3"]), ("y", "xnor", ["q", "w"], True)])
+    add("stem_chain", I("u", "v", "w") + [("s", "and", ["u", "v"]), ("h", "or", ["s", "w"]), ("c1", "and", ["h", "s"]), ("c2", "or", ["c1", "s"]), ("y", "xor", ["c2", "w"], True)])
     add("single_in_gates", I("a") + [("p", "and", ["a"]), ("q", "nor", ["p"]), ("r", "xnor", ["q"]), ("s", "xor", ["r"]), ("t", "nand", ["s"]), ("o", "or", ["t"], True)])
     add("deep_reconv", I("a", "b", "c") + [("n1", "and", ["a", "b"]), ("n2", "or", ["n1", "c"]), ("n3", "xor", ["n1", "n2"]), ("n4", "nand", ["n2", "n3", "a"]), ("n5", "nor", ["n3", "n4"]), ("o", "xnor", ["n4", "n5", "n1"], True)])
     return S
@@ -150,6 +155,16 @@ def reordered(cases):
     return out
 
 
+def f_wide(widths=(17, 33), types=("and", "nand", "or", "nor", "xor", "xnor")):
+    """one gate with very many operands (beyond 16 = a typical wrap / maxsplit / count limit), feeding a second gate"""
+    out = []
+    for k in widths:
+        for t in types:
+            ins = [(f"a{j}", "input", []) for j in range(k)]
+            out.append((("wide", t, k), mkspec(f"wide_{t}_{k}", ins + [("g", t, [f"a{j}" for j in range(k)], True), ("h", "xor", ["g", "a0", f"a{k - 1}"], True)])))
+    return out
+
+
 # ---------------------------------------------------------------------- F-cyc
 def f_cyc():
     S = []
@@ -187,6 +202,10 @@ def f_cyc():
                                       ("b1", "and", ["v", "b3"]), ("b2", "or", ["v", "b1"]), ("b3", "xor", ["v", "b2"], True)])
     add("loops_in_series_wide", I("en", "k") + [("a1", "or", ["en", "a2"]), ("a2", "and", ["a1", "k"]), ("u", "nand", ["a1", "k"]), ("v", "xor", ["u", "en"], True), ("w", "not", ["v"]),
                                                 ("b1", "nor", ["w", "b2", "v"]), ("b2", "and", ["w", "b1", "v"], True), ("o", "xnor", ["b1", "v", "w"], True)])
+    # one strongly connected component with interleaved loops (every cycle through some back edges contains a second back edge)
+    E7 = [(0, 3), (0, 6), (2, 4), (2, 5), (3, 2), (3, 5), (4, 0), (4, 6), (5, 7), (6, 5), (7, 3)]
+    for t in ("or", "and"):
+        add(f"interleaved_loops_{t}", I("i") + [(f"g{n}", t, ["i"] + [f"g{u}" for u, v in E7 if v == n], n in (0, 5)) for n in (0, 2, 3, 4, 5, 6, 7)])
     S.append((("cyc", "feedthrough_output"), mkspec("feedthrough_output", [("s", "input", [], True), ("r", "input", []), ("q", "nor", ["r", "qn"], True), ("qn", "nor", ["s", "q"])])))
     return S
 
@@ -244,6 +263,24 @@ def rand_series(rng, name):
     return {"name": name, "nodes": nodes, "edges": es, "bbs": {}}
 
 
+def rand_dense_scc(rng, name):
+    """one dense strongly connected component of 6..9 gates (a ring plus random chords in both directions), gates created in random order"""
+    k = rng.randint(6, 9)
+    order = list(range(k))
+    rng.shuffle(order)
+    ring = list(range(k))
+    rng.shuffle(ring)
+    es = {(ring[j], ring[(j + 1) % k]) for j in range(k)}
+    for _ in range(rng.randint(3, 6)):
+        u, v = rng.sample(range(k), 2)
+        es.add((u, v))
+    t = rng.choice(["or", "and", "nor", "xor"])
+    nodes = [["i", "input", False]] + [[f"g{n}", t if rng.random() < 0.7 else rng.choice(["or", "and"]), rng.random() < 0.3] for n in order]
+    nodes[1][2] = True
+    edges = [["i", f"g{n}"] for n in order if rng.random() < 0.7] + [[f"g{u}", f"g{v}"] for u, v in sorted(es)]
+    return {"name": name, "nodes": nodes, "edges": edges, "bbs": {}}
+
+
 def f_rand_cyc(seed, count):
     import networkx as nx
     from cgv.net import Net
@@ -254,7 +291,7 @@ def f_rand_cyc(seed, count):
     while len(out) < count and tries < count * 20:
         tries += 1
         rng = random.Random(f"cgv-cyc-{seed}-{tries}")
-        s = rand_series(rng, f"rser{tries}") if tries % 4 == 0 else rand_cyclic(rng, f"rcyc{tries}")
+        s = rand_series(rng, f"rser{tries}") if tries % 4 == 0 else (rand_dense_scc(rng, f"rscc{tries}") if tries % 4 == 2 else rand_cyclic(rng, f"rcyc{tries}"))
         n = Net.from_spec(s)
         if not n.is_acyclic() and not any(u == v for u, v in s["edges"]):
             out.append((("randcyc", seed, tries), s))
@@ -396,6 +433,9 @@ def seq_circuits():
     S.append((("seq", "dead_logic"), mk("dead_logic", I("clk", "a", "spare") + [("q0", "buf", []), ("q1", "buf", []), ("d0", "xor", ["a", "q0"]), ("d1", "buf", ["q0"]),
                                                                                    ("dead", "and", ["spare", "a"]), ("dead2", "not", ["q1"]), ("o", "not", ["q0"], True)],
                                         {"r0": ("d0", "q0"), "r1": ("d1", "q1")}, FF, "d", "q", {"clk": "clk"}), "d", "q"))
+    # a primary input wired straight and only into D pins (serial input of a shift register)
+    S.append((("seq", "serial_in"), mk("serial_in", I("clk", "sin", "en") + [("q0", "buf", []), ("q1", "buf", []), ("d1", "and", ["q0", "en"]), ("o", "xor", ["q0", "q1"], True)],
+                                       {"r0": ("sin", "q0"), "r1": ("d1", "q1")}, FF, "d", "q", {"clk": "clk"}), "d", "q"))
     CKDQ = ["dff", ["CK", "D"], ["Q"]]
     S.append((("seq", "cnt3"), mk("cnt3", I("CK", "inc") + [("s0", "buf", []), ("s1", "buf", []), ("s2", "buf", []),
                                                              ("n0", "xor", ["s0", "inc"]), ("c0", "and", ["s0", "inc"]), ("n1", "xor", ["s1", "c0"]), ("c1", "and", ["s1", "c0"]),
